@@ -14,7 +14,7 @@ From Raven Require Import Base.GoStr Model.Pattern Model.Names.
 Import ListNotations.
 
 (** ---- what the client wrote ---- *)
-Definition bsl : ascii := "\"%char.
+Definition bsl : ascii := bslash.
 
 Fixpoint unescape (s : str) : option str :=
   match s with
